@@ -5,6 +5,7 @@
 package zip
 
 import (
+	"errors"
 	"github.com/whatap/golib/io"
 	"github.com/whatap/golib/lang/pack"
 	"github.com/whatap/golib/logger"
@@ -22,6 +23,7 @@ type zzClient struct {
 	atSend  [][]byte // payload bytes as they were at hand-over
 	counts  []int
 	statuses []byte
+	failAt  int // > 0: the failAt-th pack handed over is reported as failed (after it was taken)
 }
 
 func (c *zzClient) Connect() error { return nil }
@@ -40,6 +42,9 @@ func (c *zzClient) SendFlush(p pack.Pack, flush bool, opts ...wnet.TcpClientOpti
 	c.counts = append(c.counts, z.RecordCount)
 	c.statuses = append(c.statuses, z.Status)
 	c.packs = append(c.packs, z)
+	if c.failAt > 0 && len(c.packs) == c.failAt {
+		return errors.New("client: connection lost")
+	}
 	return nil
 }
 
@@ -234,4 +239,38 @@ func ZZ_C16_UnserialisableRecord() {
 	}
 	zzvf.Assert(ok, "unserialisable/every-well-formed-record-exactly-once-in-order")
 	zzvf.Reach("unserialisable")
+}
+
+
+// a client that REPORTS A FAILURE for one of the packs handed to it (the connection was lost; the pack
+// was passed to the client all the same): records appended before and after are still emitted exactly
+// once, in order — a failed hand-over neither repeats its batch in the next pack nor loses later
+// records; the record counts stay exact. Two or three flushes, the first or the second one fails.
+//vf: paths=20000
+func ZZ_C16_ClientError() {
+	c := &zzClient{retain: zzvf.Choose(2) == 1, failAt: 1 + zzvf.Choose(2)}
+	s := zzSender(c, 100000, 1000000, zzvf.IntRange(0, 400))
+	var sent []*pack.LogSinkPack
+	t := int64(zzvf.IntRange(1, 1000000))
+	for round := 0; round < 3; round++ {
+		for i := 0; i < 1+round%2; i++ {
+			r := zzRecord(len(sent))
+			r.Time = t
+			s.Append(r)
+			sent = append(sent, r)
+		}
+		s.sendAndClear()
+	}
+	zzvf.Assert(len(c.packs) == 3, "client-error/one-pack-per-flush")
+	recs, okCount, okStatus, _ := zzDecode(c, true)
+	zzvf.Assert(okStatus, "client-error/compressed-payload-decompresses")
+	zzvf.Assert(okCount, "client-error/record-count-equals-records-contained")
+	ok := len(recs) == len(sent)
+	for i := range sent {
+		if i < len(recs) {
+			ok = zzvf.And(ok, zzvf.Same(recs[i], pack.Pack(sent[i])))
+		}
+	}
+	zzvf.Assert(ok, "client-error/every-record-exactly-once-in-order")
+	zzvf.Reach("client-error")
 }
